@@ -39,6 +39,7 @@ def run(ctx):
     ctx.guard(order, ctx)
     from . import c03 as _c03
     ctx.shared(_c03.keys, ctx, am)          # the loader's join keys decide which links a reloaded model has
+    ctx.shared(_c03.shared, ctx)            # the value a shared referential attribute is written with is read through the getter chain formalize installs
     ctx.assume('equality of loaded values, real rounding to six decimals and the fixed-point claim are runtime quantities and are not decided')
     ctx.assume('special floats (inf/nan) are outside the persistable domain')
     return ('Set comparison of the type alphabets in serialize_value / deserialize_value / default_value / guess_type_name / '
